@@ -689,7 +689,7 @@ def gen_sky_region(rng, shape, fmt, radunit):
     _, n, typ = parse_fmt(fmt)
     n_dec = n if typ == 'f' else 9
     lon, lat = gen_lonlat(rng, n_dec)
-    c = S.sky(lon, lat, frame, **attrs)
+    c = S.held(S.sky(lon, lat, frame, **attrs), rng)
     meta, visual = gen_meta(rng, shape)
     mp = min_printed_size(fmt)
     cls = {'circle': 'CircleSkyRegion', 'annulus': 'CircleAnnulusSkyRegion', 'ellipse': 'EllipseSkyRegion',
@@ -717,7 +717,7 @@ def gen_sky_region(rng, shape, fmt, radunit):
         cl = max(math.cos(math.radians(lat)), 0.02)
         lons = [(lon + L * rng.uniform(-1, 1) / cl) % 360.0 for _ in range(nv)]
         lats = [max(-89.99, min(89.99, lat + L * rng.uniform(-1, 1))) for _ in range(nv)]
-        return S.reg(cls, meta=meta, visual=visual, vertices=S.sky(S.arr_spec(lons), S.arr_spec(lats), frame, **attrs))
+        return S.reg(cls, meta=meta, visual=visual, vertices=S.held(S.sky(S.arr_spec(lons), S.arr_spec(lats), frame, **attrs), rng))
     if shape == 'line':
         L = logu(rng, 1e-4, 20.0)
         e = S.sky((lon + L * rng.uniform(-1, 1)) % 360.0, max(-89.99, min(89.99, lat + L * rng.uniform(-1, 1))), frame, **attrs)
